@@ -2,7 +2,7 @@ import json, copy, numpy as np, warnings
 warnings.simplefilter("ignore")
 from cr.cube.cube import Cube
 from cr.cube.enums import ORDER_FORMAT
-exec(open("p4.py").read().split("counts=np.array")[0])
+exec(open("/verif/notes/probe_D3_D4_D5_sharesum_pairwise_median.py").read().split("counts=np.array")[0])
 counts=np.array([[3,4,5],[6,7,8],[1,2,9]],float)
 r=resp(3,3,counts,nvr=[1,2,5],nvc=[1,2,3])
 s0=Cube(copy.deepcopy(r)).partitions[0]
